@@ -185,6 +185,31 @@ def containers_and_repeats():
                         bad = np.argwhere(np.atleast_2d(out) != np.atleast_2d(ref))[0]
                         return (f"apply_boundary_conditions with {which} = {fname} {sorted(idx)}: coordinate {int(bad[-1])} of {np.atleast_2d(u)[bad[0]].tolist()} is mapped to "
                                 f"{float(np.atleast_2d(out)[tuple(bad)])!r}, the same subset given as a list gives {float(np.atleast_2d(ref)[tuple(bad)])!r}"), {"container": fname, "indices": idx, "kind": which}
+    # 2-d batches in any memory layout (Fortran order, transposed views, strided slices, read-only): the same map, argument untouched
+    for idx in ([0], [0, 2], [1]):
+        for which in ("periodic", "reflective"):
+            P_, R_ = (idx, None) if which == "periodic" else (None, idx)
+            ref = mcmc.apply_boundary_conditions(np.ascontiguousarray(pts), P_, R_)
+            big = np.zeros((2 * len(pts), 6))
+            big[::2, ::2] = pts
+            ro = pts.copy()
+            ro.setflags(write=False)
+            for lname, arr in (("Fortran-ordered", np.asfortranarray(pts)), ("transposed view", np.ascontiguousarray(pts.T).T), ("strided slice", big[::2, ::2]), ("read-only", ro)):
+                keep = np.array(arr, copy=True)
+                try:
+                    out = mcmc.apply_boundary_conditions(arr, P_, R_)
+                except Exception as ex:
+                    return f"apply_boundary_conditions on a {lname} batch raised {type(ex).__name__}: {ex}", {"layout": lname, "indices": idx, "kind": which}
+                if not np.array_equal(np.asarray(arr), keep):
+                    return f"apply_boundary_conditions modified its {lname} argument in place", {"layout": lname, "indices": idx, "kind": which}
+                if out.shape != ref.shape or not np.array_equal(out, ref):
+                    bad = np.argwhere(out != ref)[0]
+                    return (f"apply_boundary_conditions on a {lname} batch with {which}={idx}: coordinate {int(bad[1])} of row {int(bad[0])} comes back as {float(out[tuple(bad)])!r}, "
+                            f"the C-ordered copy of the same batch gives {float(ref[tuple(bad)])!r}"), {"layout": lname, "indices": idx, "kind": which}
+            for lname, arr in (("Fortran-ordered", np.asfortranarray(pts)), ("transposed view", np.ascontiguousarray(pts.T).T)):
+                a, b = mcmc.check_bounds(arr, P_, R_), mcmc.check_bounds(np.ascontiguousarray(pts), P_, R_)
+                if np.shape(a) != np.shape(b) or not np.array_equal(a, b):
+                    return f"check_bounds on a {lname} batch differs from the C-ordered copy", {"layout": lname, "indices": idx, "kind": which}
     for kernel, cls in (("rwm", mcmc.RWMRunner), ("tpcn", mcmc.TPCNRunner)):
         for d, P, R in ((2, [0, 0], None), (2, None, [1, 1]), (3, [0, 0], [1]), (2, [0], [0]) if False else (3, [2, 2, 2], None)):
             ms = ModeStatistics(np.full((1, d), 0.5), 0.5 * np.eye(d)[None], np.array([5.0]))
